@@ -94,7 +94,7 @@ package bcl
 //@   ghost lx_fin = t <= tEOF; lx_err = false; bk = (g.bk == 1 ? 1 : 2)
 //@ func (*lexer).emitError
 //@   requires [C11] nothing_after_a_finalizer: !g.lx_fin && !g.lx_err
-//@   ensures [C11] error_token_carries_an_error: g.ev_sent_tokens.typ == tERR && g.ev_sent_tokens.err != nil && g.ev_sent_tokens.pos == l.posShift + l.pos
+//@   ensures [C11,C08] error_token_carries_an_error_at_its_absolute_offset: g.ev_sent_tokens.typ == tERR && g.ev_sent_tokens.err != nil && g.ev_sent_tokens.pos == l.posShift + l.pos
 //@   ensures [C11] one_token_sent: g.ev_send_tokens == old(g.ev_send_tokens) + 1
 //@   modifies g.ev_send_tokens, g.ev_sent_tokens, g.lx_err
 //@   ghost lx_err = true
@@ -165,6 +165,14 @@ package bcl
 //@   implements stateFn
 //@   ensures [C20] white_space_produces_no_token: g.ev_send_tokens == old(g.ev_send_tokens) && result == fn("lexStart")
 //@   ensures [C20] exactly_the_run_of_white_space_is_skipped: l.start == l.pos && l.posShift + l.pos == skipSpaces(g.ev_src_inputs, old(l.posShift + l.pos))
+// what may not directly follow a number: a quote or a letter (and a dot after a hex literal); anything
+// else - in particular '#', so a comment may be glued to a number - ends the literal
+//@ func lexNumber
+//@   implements stateFn
+//@   assert [C20,C17] a_decimal_literal_is_refused_only_before_a_quote_or_a_letter: at fail#1: r == 34 || (r >= 97 && r <= 122) || (r >= 65 && r <= 90)
+//@ func lexHex
+//@   implements stateFn
+//@   assert [C20,C17] a_hex_literal_is_refused_only_before_a_dot_a_quote_or_a_letter: at fail#1: r == 46 || r == 34 || (r >= 97 && r <= 122) || (r >= 65 && r <= 90)
 //@ func lexLineComment
 //@   implements stateFn
 //@   ensures [C20,C17] a_comment_produces_no_token: g.ev_send_tokens == old(g.ev_send_tokens) && result == fn("lexStart")
